@@ -288,6 +288,17 @@ def run(ctx):
                 "Q POST:2:01011:|01111:d%s/r;GET:0:11111:d%s/r;POST:0:01110:d%s/r;GET:0:01111:d%s/r" % (ok, ok, ok, ok),
                 "Q POST:2:01111:d%s/r,c/0;POST:2:01111:c/0|01111:d%s/r" % (ok, ok),   # stale cached connection: not retried
             ]
+            def judge(line, ri, rm):
+                if ri.startswith("CRASH") or ri.startswith("EXC"):
+                    return "impl-crashes"
+                bad = oracle(line, ri)
+                if bad:
+                    return bad[0]
+                strip_ = lambda s_: " ; ".join(x.split("(SLOW")[0] for x in s_.split(" ; "))
+                return "correspondence" if strip_(ri) != rm else None
+            v.shrinker = lambda line: vlib.shrink_line(
+                ctx, impl_exe, model_exe, line, lambda l: (l.split(" ")[0], l.split(" ", 1)[1].split(";")),
+                lambda h, ops: h + " " + ";".join(ops), judge, tag="c17s")
             lines = corpus + [gen_case(rng) for _ in range(n)]
             # every third case with paced delivery: the client sees exactly the scripted segmentation
             lines = [("QP" + l[1:]) if (i % 3 == 2 and l.startswith("Q ")) else l for i, l in enumerate(lines)]
